@@ -835,11 +835,26 @@ async fn run_case(c: &Case) -> Option<Trace> {
             let Some(value) = val.take() else { break };
             // the far end receives concurrently
             let vrx2 = vrx.clone();
+            // (after an error that concerns one item only it goes on receiving, as an application would:
+            // otherwise the origin may wait for flow-control credit nobody returns)
+            let first: Arc<std::sync::Mutex<Option<Option<Result<Option<Val>, base::RecvError>>>>> = Arc::new(Default::default());
+            let first2 = first.clone();
             let recv_task = tokio::spawn(async move {
                 let mut g = vrx2.lock().await;
                 match g.as_mut() {
-                    Some(rx) => Some(rx.recv().await),
-                    None => None,
+                    Some(rx) => loop {
+                        let r = rx.recv().await;
+                        let again = matches!(&r, Err(base::RecvError::Deserialize(_)) | Err(base::RecvError::MissingPorts(_)));
+                        let mut f = first2.lock().unwrap();
+                        if f.is_none() {
+                            *f = Some(Some(r));
+                        }
+                        drop(f);
+                        if !again {
+                            break;
+                        }
+                    },
+                    None => *first2.lock().unwrap() = Some(None),
                 }
             });
             let send_task = tokio::spawn(async move {
@@ -900,8 +915,14 @@ async fn run_case(c: &Case) -> Option<Trace> {
             }
             // receive side
             let rres;
-            if recv_task.is_finished() {
-                match recv_task.await.ok()? {
+            if !recv_task.is_finished() {
+                recv_task.abort();
+            }
+            let _ = recv_task.await;
+            barrier().await;
+            let got = first.lock().unwrap().take();
+            if let Some(got) = got {
+                match got {
                     Some(Ok(Some(value))) => {
                         rres = VRes::Ok;
                         let mut ls = Vec::new();
@@ -928,9 +949,6 @@ async fn run_case(c: &Case) -> Option<Trace> {
                     None => rres = VRes::NotTried,
                 }
             } else {
-                recv_task.abort();
-                let _ = recv_task.await;
-                barrier().await;
                 rres = VRes::Pending;
             }
             res.2 = rres;
